@@ -587,11 +587,12 @@ func c16Readiness() *evid.Fail {
 	defer cl.Close()
 	bind := "127.0.0.1:0"
 	httpBind := fmt.Sprintf("127.0.0.1:%d", freePort())
-	out := &syncBuf{}
+	out := newSyncBuf()
+	defer out.Close()
 	cmd := exec.Command(bin, "--bind", bind, "--contact-points", cl.HostIP(0), "--port", fmt.Sprint(cl.Port), "--health-check", "--http-bind", httpBind, "--readiness-timeout", "300ms",
 		"--heartbeat-interval", "100ms", "--idle-timeout", "300ms", "--connect-timeout", "300ms")
 	cmd.Env = []string{"PATH=/usr/bin:/bin", "HOME=/tmp"}
-	cmd.Stdout, cmd.Stderr = out, out
+	cmd.Stdout, cmd.Stderr = out.File(), out.File()
 	if err := cmd.Start(); err != nil {
 		return evid.Failf("harness-start", "%v", err)
 	}
